@@ -48,6 +48,7 @@ class CtxRec:
         self.hcalls = []
         self.events = []
         self.left_open = []       # instruments released while open (release order)
+        self.act_log = []         # (who, act, outcome) of context operations done by release steps / task bodies / stop handlers
         self.objs = []            # (manager id, object) of every constructed test object
 
 
@@ -133,6 +134,45 @@ def classes():
         rec.rel.append(mid)
         rec.rel_count[mid] = rec.rel_count.get(mid, 0) + 1
         rec.events.append(f"rel:{mid}")
+        do_acts(obj._context, (getattr(obj, "spec", None) or {}).get("acts") or [], f"release:{mid}")
+
+    def do_acts(ctx, acts, who):
+        """user code acting on the CONTEXT from inside a release step / task body / stop handler: remove another object,
+        make one, look one up and call it, stop() re-entrantly.  Every outcome is recorded; nothing may hang."""
+        from harness import detsched as D
+        rec = REC.of(ctx)
+        for act in acts:
+            verb = act[0]
+            try:
+                if verb == "remove":
+                    ctx.remove_rpc_object(act_proxy(ctx, act[1]))
+                elif verb == "make":
+                    sp = {"ctorF": 0, "relF": 0, "runB": "loop", "relBase": 0, "state": None, "acts": []}
+                    cls = {"rpc": Obj, "instr": Instr}[act[2] if len(act) > 2 else "rpc"]
+                    if cls is Obj:
+                        ctx.make_rpc_object(NAMES[act[1]], Obj, sp)
+                    else:
+                        ctx.make_instrument(NAMES[act[1]], Instr, sp)
+                elif verb == "call":
+                    act_proxy(ctx, act[1]).get_name(rpc_timeout=RPC_TIMEOUT)
+                elif verb == "get":
+                    ctx.get_rpc_object_by_name("c1." + NAMES[act[1]])
+                elif verb == "stop":
+                    ctx.stop()
+                o = "ok"
+            except D.SchedAbort:
+                rec.act_log.append((who, list(act), "never-finished"))
+                raise
+            except BaseException as e:  # noqa
+                o = type(e).__name__
+            rec.act_log.append((who, list(act), o))
+
+    def act_proxy(ctx, n):
+        from qmi.core.rpc import QMI_RpcProxy, RpcObjectDescriptor, make_interface_descriptor
+        from qmi.core.messaging import QMI_MessageHandlerAddress
+        desc = RpcObjectDescriptor(address=QMI_MessageHandlerAddress(ctx.name, NAMES[n]), category=None,
+                                   interface=make_interface_descriptor(Obj))
+        return QMI_RpcProxy(ctx, desc)
 
     class FakeTransport:
         def __init__(self):
@@ -251,6 +291,16 @@ def classes():
                 raise Boom("run")
             if rb == "finish":
                 return
+            if rb == "acting":
+                # a task that owns other objects: makes them in run(), works, removes them in `finally:`
+                ba = self.spec.get("body_acts") or {}
+                try:
+                    do_acts(self._context, ba.get("pre") or [], "task-body")
+                    while not self.stop_requested():
+                        self.sleep(1.0)
+                finally:
+                    do_acts(self._context, ba.get("finally") or [], "task-finally")
+                return
             if rb in BUSY_BODIES:
                 return busy_body(self, rb)
             while not self.stop_requested():
@@ -273,7 +323,7 @@ def classes():
                 raise
             raising(self)
 
-    _CLS = dict(Boom=Boom, BaseBoom=BaseBoom, raise_kind=raise_kind, Gate=Gate, Obj=Obj, Instr=Instr, Task=Task, Runner=Runner)
+    _CLS = dict(Boom=Boom, BaseBoom=BaseBoom, raise_kind=raise_kind, do_acts=do_acts, Gate=Gate, Obj=Obj, Instr=Instr, Task=Task, Runner=Runner)
     return _CLS
 
 
@@ -637,7 +687,7 @@ EXC_KINDS = {1: "Boom(Exception)", 2: "BaseBoom(BaseException)", 3: "SystemExit 
 EXC_CODES = [1, 7, 8, 9, 10]          # Exception subclasses
 BASE_CODES = [2, 3, 4, 5, 6]          # BaseException subclasses that are not Exception
 BUSY_BODIES = ("remote", "chain", "sleep", "signal")
-MODEL_RUNB = {b: "loop" for b in BUSY_BODIES}   # harness-only task bodies -> the model's body (runs until stopped)
+MODEL_RUNB = {b: "loop" for b in BUSY_BODIES + ("acting",)}   # harness-only task bodies -> the model's body (runs until stopped)
 
 
 def _exc_s(e: BaseException) -> str:
@@ -707,7 +757,7 @@ class Runner1:
             if task is None or _done(th):
                 continue
             S = _TaskThread.State
-            if th._state in (S.INITIAL, S.READY_TO_RUN) or (th._state == S.RUNNING and task.spec["runB"] in ("loop",) + BUSY_BODIES):
+            if th._state in (S.INITIAL, S.READY_TO_RUN) or (th._state == S.RUNNING and task.spec["runB"] in ("loop", "acting") + BUSY_BODIES):
                 continue
             if True:
                 ts = th._ds_ts
@@ -726,8 +776,10 @@ class Runner1:
         C = classes()
         k = op[0]
         if k == "make":
-            _, kind, n, namestr, ctorF, relF, runB, relBase = op
-            spec = {"ctorF": int(ctorF), "relF": bool(relF), "runB": runB, "relBase": int(relBase), "state": self.busy_state}
+            _, kind, n, namestr, ctorF, relF, runB, relBase = op[:8]
+            extra = op[8] if len(op) > 8 else {}
+            spec = {"ctorF": int(ctorF), "relF": bool(relF), "runB": runB, "relBase": int(relBase), "state": self.busy_state,
+                    "acts": extra.get("acts") or [], "body_acts": extra.get("body_acts") or {}}
             if self.single:
                 import qmi
                 tgt = qmi
@@ -788,9 +840,12 @@ class Runner1:
             shape = op[2] if len(op) > 2 else "def"
             code = op[3] if len(op) > 3 else 0
 
+            hacts = op[4] if len(op) > 4 else []
+
             def core():
                 rec.hcalls[i] += 1
                 rec.events.append(f"h:{i}")
+                C["do_acts"](ctx, hacts, f"handler:{i}")
                 if kind == "exc":
                     C["raise_kind"](code if code in EXC_CODES else 1, "handler-exc", "stop handler")
                 if kind == "base":
@@ -907,7 +962,7 @@ def op_line(op) -> str:
     """the model-driver line of an op"""
     k = op[0]
     if k == "make":
-        _, kind, n, namestr, ctorF, relF, runB, _rb = op
+        _, kind, n, namestr, ctorF, relF, runB, _rb = op[:8]
         return f"make {kind} {n} {int(ref_valid(namestr))} {int(bool(ctorF))} {int(relF)} {MODEL_RUNB.get(runB, runB)}"
     if k == "get":
         return f"get {op[1]}"
@@ -1147,7 +1202,7 @@ def run_conc(seed, cfg_tcp: bool, pop_ops, mk, gate=None, until="stopped", polic
             tr.impl.append(f"{o} | {observe(r.ctx, ev0)}")
             tr.obs.append({"op": op, "out": o})
         rec = REC.of(r.ctx)
-        _, kind, n, namestr, ctorF, relF, runB, _rb = mk
+        _, kind, n, namestr, ctorF, relF, runB, _rb = mk[:8]
         tr.lines.append(f"conc {kind} {n} {int(bool(ctorF))} {int(relF)} {MODEL_RUNB.get(runB, runB)}")
         tr.conc.append(len(tr.lines) - 1)
         tr.obs_pending = ["conc", mk]
@@ -1473,6 +1528,261 @@ def oracle_busy(spec: dict, tr: Trace):
         bad.append(("busy:threads-left", f"threads at the end: {res['thr_end']}{res['stray']}", 0))
     if res["probe"] != "ok":
         bad.append(("busy:cannot-start-again", f"new context afterwards: {res['probe']}", 0))
+    return bad
+
+
+def _mk(kind, n, acts=None, relF=0, runB="loop", body_acts=None):
+    return ["make", kind, n, NAMES[n], 0, relF, runB, 0, {"acts": acts or [], "body_acts": body_acts or {}}]
+
+
+# populations in which release steps / task bodies / stop handlers act on the stopping context; creation order != ownership order
+ACT_SPECS = [
+    # an owner created first whose release step removes what it owns (created later), for every kind of owned object
+    {"ops": [_mk("rpc", 1, acts=[["remove", 2], ["remove", 3]]), _mk("instr", 2), _mk("task", 3), ["tstart", 3]], "end": ["stop"]},
+    # owned first, owner later; the owner also removes itself and an unknown name, looks others up and calls them
+    {"ops": [_mk("instr", 2), _mk("rpc", 3, relF=1), _mk("rpc", 1, acts=[["remove", 2], ["remove", 1], ["remove", 4], ["get", 3], ["call", 3], ["call", 2]])],
+     "end": ["stop"]},
+    # a task that makes an instrument in run() and removes it in `finally:`; another object released in between
+    {"ops": [_mk("task", 1, runB="acting", body_acts={"pre": [["make", 4, "instr"]], "finally": [["remove", 4]]}), ["tstart", 1], _mk("rpc", 2)],
+     "end": ["stop"], "wait_made": 4},
+    {"ops": [_mk("rpc", 2), _mk("task", 1, runB="acting", body_acts={"pre": [["make", 4, "rpc"], ["make", 3, "instr"]], "finally": [["remove", 3], ["remove", 4], ["remove", 2]]}),
+             ["tstart", 1]], "end": ["stop"], "wait_made": 3},
+    # release steps that make objects, stop() re-entrantly (wrong thread), call the object being released
+    {"ops": [_mk("rpc", 1, acts=[["make", 4], ["stop"], ["call", 1], ["get", 1]]), _mk("instr", 2, acts=[["make", 3, "instr"], ["remove", 1]]),
+             _mk("task", 3, acts=[["remove", 2], ["call", 1]])], "end": ["stop"]},
+    # the same owners removed while the context is active (the nested removal really happens), then stop
+    {"ops": [_mk("rpc", 1, acts=[["remove", 2], ["make", 4]]), _mk("instr", 2, acts=[["remove", 3]]), _mk("task", 3), ["tstart", 3]],
+     "end": ["remove:1", "stop"]},
+    {"ops": [_mk("task", 3, acts=[["remove", 1]]), _mk("rpc", 1, acts=[["remove", 3], ["remove", 2]]), _mk("instr", 2), ["iopen", 2]],
+     "end": ["remove:1", "remove:3", "stop"]},
+    # stop handlers (every callable kind elsewhere) that remove, make, look up and call objects
+    {"ops": [_mk("rpc", 1), _mk("instr", 2), _mk("task", 3), ["tstart", 3], ["addh", "ok", "partial", 0, [["remove", 2], ["call", 1], ["make", 4]]],
+             ["addh", "exc", "object", 1, [["remove", 3], ["remove", 3], ["get", 1]]]], "end": ["stop"]},
+]
+
+
+def run_acts(seed, spec: dict, policy="weighted", change_points=None) -> Trace:
+    """release steps / task bodies / stop handlers that act on the context while it is stopping or while an object is
+    removed (oracle only: the Lean model's release step does not run context operations)"""
+    tr = Trace()
+    tr.obs_pending = ["acts", spec]
+
+    def body(w):
+        REC.world = w
+        r = Runner1(w, bool(seed % 2))
+        r.new()
+        ctx = r.ctx
+        rec = REC.of(ctx)
+        res = {"setup": [r.do(["start", 0, 0])], "end": []}
+        for op in spec["ops"]:
+            res["setup"].append(r.do(op))
+        if spec.get("wait_made"):
+            nm = NAMES[spec["wait_made"]]
+            w.sched.yield_point("c12.acts", blocked_on=lambda: ctx._rpc_object_map.get(nm) is not None and
+                                nm in ctx._message_router._address_to_messagehandler_map)
+        for e in spec["end"]:
+            if e == "stop":
+                res["end"].append(("stop", r.do(["stop"])))
+            else:
+                res["end"].append((e, r.do(["remove", int(e.split(":")[1])])))
+            r.quiesce(ctx)
+        res["thr"] = thread_counts(rec)
+        res["resid"] = residue_s(ctx, rec)
+        res["stray"] = stray_s()
+        res["constructed"] = sorted(mid for mid, _o in rec.objs) + [0]
+        res["relc"] = dict(rec.rel_count)
+        res["acts"] = list(rec.act_log)
+        res["probe"] = r.probe()
+        return res
+
+    out = _run(seed, body, policy=policy, change_points=change_points, max_steps=60000)
+    tr.deadlock = out.deadlock or ("step budget exceeded" if out.budget else None)
+    tr.error = out.error
+    tr.calls = out.value
+    return tr
+
+
+def oracle_acts(spec: dict, tr: Trace):
+    if tr.deadlock is not None:
+        return [("acts:hang", f"stop()/remove() with release steps acting on the context never completed: {tr.deadlock[:300]}", 0)]
+    res = tr.calls
+    bad = []
+    if any(o != "ok" for o in res["setup"]):
+        bad.append(("acts:setup-fails", f"setup: {res['setup']}", 0))
+    for what, o in res["end"]:
+        if what == "stop" and o != "ok":
+            bad.append((f"acts:stop-raises:{o[4:]}", f"stop() raised {o} (release steps / task bodies / handlers acting on the context); acts: {res['acts']}", 0))
+    if res["end"] and res["end"][-1][0] == "stop":
+        st = parse_state(res["resid"])
+        if res["thr"] != (0, 0, 0):
+            bad.append(("acts:stop-leaves-threads", f"threads after stop(): {res['thr']}; {res['resid']}; acts: {res['acts']}", 0))
+        if st["conn"] != "-" or st["h"] != "-" or st["map"] != "-":
+            bad.append(("acts:stop-leaves-residue", f"after stop(): {res['resid']}", 0))
+        for mid in res["constructed"]:
+            c = res["relc"].get(mid, 0)
+            if c != 1:
+                bad.append(("acts:release-count", f"object of manager {mid} released {c} times; acts: {res['acts']}", 0))
+    if res["stray"]:
+        bad.append(("acts:stray-thread", res["stray"], 0))
+    if any(o == "never-finished" for _w, _a, o in res["acts"]):
+        bad.append(("acts:act-hangs", f"{res['acts']}", 0))
+    if res["probe"] != "ok":
+        bad.append(("acts:cannot-start-again", f"new context afterwards: {res['probe']}", 0))
+    return bad
+
+
+REAL_SPECS = [
+    {"incoming": 1, "outgoing": 0, "first": "server"},
+    {"incoming": 2, "outgoing": 1, "first": "server"},
+    {"incoming": 1, "outgoing": 1, "first": "client"},
+    {"incoming": 0, "outgoing": 2, "first": "server"},
+    {"incoming": 2, "outgoing": 0, "first": "client"},
+    {"incoming": 0, "outgoing": 0, "first": "server"},
+]
+
+
+def run_real(spec: dict, timeout: float = 30.0) -> dict:
+    """REAL loopback sockets and real threads (no scheduler, no simnet): a context with a fixed tcp_server_port and
+    `incoming` / `outgoing` established peer connections is stopped (server first or clients first); a new context with the
+    same port must start at once.  Bounded waits everywhere; the scenario runs in a helper thread with a deadline."""
+    import socket
+    res = {"spec": spec, "steps": []}
+
+    def free_port():
+        sk = socket.socket()
+        sk.bind(("127.0.0.1", 0))
+        p = sk.getsockname()[1]
+        sk.close()
+        return p
+
+    def body():
+        from qmi.core.context import QMI_Context
+        from qmi.core.config_defs import CfgQmi, CfgContext
+        from qmi.core.messaging import _TcpServer, _UdpResponder
+        base = set(_rt.enumerate())
+        port = free_port()
+        cfg = lambda name, p: CfgQmi(contexts={name: CfgContext(tcp_server_port=p)})
+        made = []
+        try:
+            srv = QMI_Context("c1", cfg("c1", port))
+            srv.start()
+            made.append(srv)
+            clients, others = [], []
+            for i in range(spec["incoming"]):
+                c = QMI_Context(f"cl{i}")
+                c.start()
+                made.append(c)
+                c.connect_to_peer("c1", "127.0.0.1:%d" % port)
+                c.make_peer_context_proxy("c1").get_version(rpc_timeout=5.0)
+                clients.append(c)
+            for i in range(spec["outgoing"]):
+                op = free_port()
+                o = QMI_Context(f"o{i}", cfg(f"o{i}", op))
+                o.start()
+                made.append(o)
+                srv.connect_to_peer(f"o{i}", "127.0.0.1:%d" % op)
+                srv.make_peer_context_proxy(f"o{i}").get_version(rpc_timeout=5.0)
+                others.append(o)
+            res["steps"].append("established")
+            order = [srv] + clients + others if spec["first"] == "server" else clients + others + [srv]
+            for c in order:
+                c.stop()
+            res["steps"].append("stopped")
+            # the process must be able to start a context of the same configuration at once
+            try:
+                again = QMI_Context("c1", cfg("c1", port))
+                again.start()
+                made.append(again)
+                res["restart"] = "ok"
+                sm = again._message_router._socket_manager
+                opts = {}
+                deadline = _rtime_monotonic() + 5.0
+                while _rtime_monotonic() < deadline and len(sm._socket_wrappers) < 2:
+                    _rtime_sleep(0.005)
+                for wr in list(sm._socket_wrappers):
+                    if isinstance(wr, _TcpServer):
+                        opts["tcp"] = wr._sock.getsockopt(socket.SOL_SOCKET, socket.SO_REUSEADDR)
+                    if isinstance(wr, _UdpResponder):
+                        opts["udp"] = wr._sock.getsockopt(socket.SOL_SOCKET, socket.SO_REUSEADDR)
+                res["reuse"] = opts
+                again.stop()
+            except BaseException as e:  # noqa
+                res["restart"] = f"{type(e).__name__}: {e}"
+        finally:
+            for c in made:
+                try:
+                    if c._active:
+                        c.stop()
+                except BaseException:  # noqa
+                    pass
+            deadline = _rtime_monotonic() + 5.0
+            left = [t for t in _rt.enumerate() if t not in base and t is not _rt.current_thread()]
+            while left and _rtime_monotonic() < deadline:
+                _rtime_sleep(0.01)
+                left = [t for t in _rt.enumerate() if t not in base and t is not _rt.current_thread() and t.is_alive()]
+            res["threads_left"] = [type(t).__name__ for t in left]
+
+    def guarded():
+        try:
+            body()
+        except BaseException as e:  # noqa
+            res["error"] = f"{type(e).__name__}: {e}"
+    th = _rt.Thread(target=guarded, daemon=True)
+    th.start()
+    th.join(timeout)
+    res["hang"] = th.is_alive()
+    return res
+
+
+def _rtime_monotonic():
+    import time
+    return time.monotonic()
+
+
+def _rtime_sleep(d):
+    import time
+    time.sleep(d)
+
+
+def reuse_before_bind():
+    """source check: in MessageRouter.start_tcp_server / start_udp_responder the address-reuse option is set on the socket
+    before bind() (set afterwards it has no effect on that bind: a port in TIME_WAIT is refused)"""
+    import ast
+    import inspect
+    import textwrap
+    from qmi.core.messaging import MessageRouter
+    out = {}
+    for fn in ("start_tcp_server", "start_udp_responder"):
+        tree = ast.parse(textwrap.dedent(inspect.getsource(getattr(MessageRouter, fn))))
+        binds, opts = [], []
+        for node in ast.walk(tree):
+            if isinstance(node, ast.Call) and isinstance(node.func, ast.Attribute):
+                if node.func.attr == "bind":
+                    binds.append(node.lineno)
+                if node.func.attr == "setsockopt" and any(isinstance(a, ast.Attribute) and a.attr in ("SO_REUSEADDR", "SO_REUSEPORT")
+                                                          for a in node.args):
+                    opts.append(node.lineno)
+        if not binds or not opts:
+            raise RuntimeError(f"reuse_before_bind: {fn}: source shape not understood (bind at {binds}, setsockopt at {opts})")
+        out[fn] = min(opts) < min(binds)
+    return out
+
+
+def oracle_real(res: dict):
+    sp = res["spec"]
+    tag = f"{sp['first']}-first:in{sp['incoming']}:out{sp['outgoing']}"
+    if res.get("hang"):
+        return [(f"real:hang:{tag}", f"real-socket scenario did not finish within its deadline after {res['steps']}", 0)]
+    if "error" in res:
+        return [(f"real:error:{tag}", f"real-socket scenario raised {res['error']} after {res['steps']}", 0)]
+    bad = []
+    if res.get("restart") != "ok":
+        bad.append((f"real:cannot-start-again:{tag}", f"a new context with the same tcp_server_port right after stop(): {res.get('restart')}", 0))
+    for k, v in res.get("reuse", {}).items():
+        if v == 0:
+            bad.append((f"real:reuseaddr-not-set:{k}", f"the listening {k} socket has SO_REUSEADDR = 0", 0))
+    if res.get("threads_left") and res.get("restart") == "ok":
+        bad.append(("real:threads-left", f"threads alive after all contexts stopped: {res['threads_left']}", 0))
     return bad
 
 
@@ -1822,7 +2132,7 @@ def oracle_history(tr: Trace):
                 flag("released-twice", f"manager {mid} released {cnt} times (after {op})", i)
         same = _res(st) == _res(prev)
         if k == "make":
-            _, kind, n, namestr, ctorF, relF, runB, _rb = op
+            _, kind, n, namestr, ctorF, relF, runB, _rb = op[:8]
             if not ref_valid(namestr):
                 if out == "ok" or not same:
                     flag("invalid-name-accepted", f"make {namestr!r}: {out}, residue changed={not same}", i)
@@ -2063,6 +2373,8 @@ def run_case(case: dict) -> Trace:
     if k == "mm":
         return run_mm(case["seed"], case["cfg_tcp"], case["pop"], case["mk1"], case["mk2"], policy=case.get("policy", "weighted"),
                       change_points=case.get("change_points"))
+    if k == "acts":
+        return run_acts(case["seed"], case["spec"], policy=case.get("policy", "weighted"), change_points=case.get("change_points"))
     if k == "busy":
         return run_busy(case["seed"], case["spec"], policy=case.get("policy", "weighted"), change_points=case.get("change_points"))
     if k == "calls":
@@ -2077,6 +2389,8 @@ def oracle(case: dict, tr: Trace):
         return oracle_mm(tr)
     if case["kind"] == "busy":
         return oracle_busy(case["spec"], tr)
+    if case["kind"] == "acts":
+        return oracle_acts(case["spec"], tr)
     return {"hist": oracle_history, "single": oracle_singleton, "conc": oracle_conc}[case["kind"]](tr)
 
 
@@ -2331,6 +2645,60 @@ class C12(Prop):
                                                 replay={**case, "expect": sig}))
         return n
 
+    def _oracle_only(self, res: Result, cases, label: str) -> int:
+        n = 0
+        for case in cases:
+            tr = run_case(case)
+            if tr.error is not None:
+                raise tr.error
+            n += 1
+            res.traces_validated += 1
+            res.count("scenarios_" + label)
+            if tr.calls is not None:
+                for _w, a, o in tr.calls.get("acts", []):
+                    res.count(f"context_op_from_user_code_{a[0]}_{o}")
+            res.note_case((label, repr(case)), nontrivial=True)
+            for sig, det, _i in oracle(case, tr):
+                if self._seen.get(sig, 0) >= 1:
+                    self._seen[sig] += 1
+                    continue
+                self._seen[sig] = 1
+                res.failures.append(Failure(signature=sig, summary=f"{sig}: {det[:500]} | case={_short(case)}",
+                                            replay={**case, "expect": sig}))
+        return n
+
+    def _acts(self, res: Result, seeds: int, seed0: int) -> int:
+        """release steps / task bodies / stop handlers acting on the context (oracle only)"""
+        return self._oracle_only(res, [{"kind": "acts", "seed": seed0 + 100 * i + sd, "spec": spec, "policy": "pct" if sd % 3 == 2 else "weighted"}
+                                       for i, spec in enumerate(ACT_SPECS) for sd in range(seeds)], "acts")
+
+    def _real(self, res: Result, rounds: int) -> int:
+        """real loopback sockets: fixed port, established peer connections at stop, immediate restart; SO_REUSEADDR before bind"""
+        n = 0
+        order = reuse_before_bind()
+        for fn, ok in order.items():
+            res.count(f"reuse_option_before_bind_{fn}_{ok}")
+            if not ok and not self._seen.get("real:reuseaddr-set-after-bind:" + fn):
+                self._seen["real:reuseaddr-set-after-bind:" + fn] = 1
+                res.failures.append(Failure(f"real:reuseaddr-set-after-bind:{fn}",
+                                            f"MessageRouter.{fn}: the address-reuse socket option is set after bind() (no effect on that bind: a port in "
+                                            f"TIME_WAIT is refused)", {"kind": "real-ast", "fn": fn}))
+        for _ in range(rounds):
+            for spec in REAL_SPECS:
+                r = run_real(spec)
+                n += 1
+                res.traces_validated += 1
+                res.count("scenarios_real_sockets")
+                res.count(f"real_{spec['first']}_first_in{spec['incoming']}_out{spec['outgoing']}")
+                res.note_case(("real", repr(spec), n), nontrivial=True)
+                for sig, det, _i in oracle_real(r):
+                    if self._seen.get(sig, 0) >= 1:
+                        self._seen[sig] += 1
+                        continue
+                    self._seen[sig] = 1
+                    res.failures.append(Failure(sig, f"{sig}: {det}", {"kind": "real", "spec": spec, "expect": sig}))
+        return n
+
     def _diff(self, res: Result, batch: list) -> None:
         drv = LeanDriver(self.driver)
         lines, spans = [], []
@@ -2370,7 +2738,10 @@ class C12(Prop):
                           "a peer that does not answer / in a local call waiting for the peer / in sleep() / in get_next_signal() when stop(), "
                           "disconnect or remove() arrives (two contexts). Constructors, release steps and stop handlers raise every exception "
                           "kind (Exception subclasses; SystemExit, KeyboardInterrupt, GeneratorExit, CancelledError, an application "
-                          "BaseException); stop handlers are every kind of callable. After every op the "
+                          "BaseException); stop handlers are every kind of callable; release steps, task bodies and stop handlers that act on the context "
+                          "(remove / make / look up / call other objects, stop() re-entrantly; creation order != ownership order) — oracle only; "
+                          "REAL loopback sockets: fixed tcp_server_port, 0-2 incoming / outgoing peer connections established at stop, server or "
+                          "clients first, immediate restart on the same port, SO_REUSEADDR read back and checked to be set before bind. After every op the "
                           "abstract state read from the real objects is compared with the model. Non-trivial = contains a stop, remove, failed "
                           "start or race; distinct by (kind, ops, faults, gate).")
         self._seen = {}
@@ -2413,7 +2784,9 @@ class C12(Prop):
         n += self._calls(res, ctx, seeds=range(ctx.scale(1, 3)), stride=ctx.scale(10, 2), randoms=ctx.scale(4, 40), seed0=seed0 + 500000)
         ctx.log(f"layer D done: {n} scenarios")
         n += self._busy(res, ctx, seeds=ctx.scale(6, 60), seed0=seed0 + 700000, stride=ctx.scale(2, 1))
-        ctx.log(f"busy objects done: {n} scenarios")
+        n += self._acts(res, seeds=ctx.scale(6, 40), seed0=seed0 + 800000)
+        n += self._real(res, rounds=ctx.scale(1, 5))
+        ctx.log(f"busy objects, acting release steps, real sockets done: {n} scenarios")
         self._diff(res, batch)
         for case, tr in batch[:2] + [b for b in batch if b[0]["kind"] == "single"][:1] + [b for b in batch if b[0]["kind"] == "conc"][-1:]:
             res.sample({"case": _short(case), "lines": tr.lines[:12], "impl": tr.impl[:12]})
@@ -2465,9 +2838,17 @@ class C12(Prop):
         # calls racing remove()/stop(): the action at every yield index of the call path, two priority assignments
         self._calls(res, ctx, seeds=range(2), stride=1, randoms=20, seed0=seed0 + 900000)
         self._busy(res, ctx, seeds=30, seed0=seed0 + 950000, stride=1)
+        self._acts(res, seeds=30, seed0=seed0 + 960000)
+        self._real(res, rounds=3)
         return res
 
     def replay(self, ctx: Ctx, rp: dict):
+        if rp.get("kind") == "real-ast":
+            ok = reuse_before_bind().get(rp["fn"], True)
+            return None if ok else Failure(f"real:reuseaddr-set-after-bind:{rp['fn']}", "address-reuse option set after bind()", rp)
+        if rp.get("kind") == "real":
+            bad = oracle_real(run_real(rp["spec"]))
+            return Failure(bad[0][0], f"{bad[0][0]}: {bad[0][1]}", rp) if bad else None
         case = {k: v for k, v in rp.items() if k != "expect"}
         tr = run_case(case)
         if tr.error is not None:
@@ -2492,7 +2873,7 @@ def i_prev_state(tr: Trace, ob):
 
 def _short(case: dict) -> str:
     c = dict(case)
-    if c.get("kind") == "busy":
+    if c.get("kind") in ("busy", "acts"):
         return repr({k: v for k, v in c.items()})
     if c.get("kind") == "calls":
         sp = c["spec"]
